@@ -561,8 +561,11 @@ fn deep_probe(out: &mut Out, shape: &str, n: usize) {
     let file = dir.join("deep.nbt");
     if std::fs::write(&file, &text).is_err() { return; }
     let line = format!("deep {} {}", shape, n);
-    let mut child = match std::process::Command::new(CLI_BIN)
-        .args(["--no-config", "--no-init", "--no-prelude", "--color", "never"])
+    // the main thread's stack is what the shell's limit says: fix it at the usual 8 MiB so that the depths mean the same
+    // everywhere (if the hard limit is lower, the probe is skipped)
+    let mut child = match std::process::Command::new("sh")
+        .arg("-c")
+        .arg(format!("ulimit -s 8192 2>/dev/null; [ \"$(ulimit -s)\" = 8192 ] || exit 97; exec {} --no-config --no-init --no-prelude --color never \"$0\"", CLI_BIN))
         .arg(&file)
         .env("HOME", &dir)
         .env("XDG_CONFIG_HOME", dir.join("cfg"))
@@ -589,6 +592,8 @@ fn deep_probe(out: &mut Out, shape: &str, n: usize) {
         None => out.oracle_fail(&format!("hang:deep-nesting:{}:{}", shape, n), &line, &format!("no result within 60 s for {} nested {} levels deep", shape, n)),
         Some(s) => match s.code() {
             Some(0) | Some(1) => out.count("deep_nesting_reported"),
+            // the environment does not allow an 8 MiB stack: the depths would mean something else — no verdict
+            Some(97) => out.count("deep_nesting_skipped_no_8MiB_stack"),
             Some(c) => out.oracle_fail(&format!("abort:deep-nesting:{}:{}", shape, n), &line, &format!("`{}` nested {} levels deep: the process exits with status {} (neither a result nor a reported error)", shape, n, c)),
             None => out.oracle_fail(&format!("abort:deep-nesting:{}:{}", shape, n), &line, &format!("`{}` nested {} levels deep ({} bytes): the process is killed by a signal (stack overflow) instead of reporting an error", shape, n, text.len())),
         },
